@@ -85,6 +85,13 @@ StartSub(s) ==
      ELSE /\ out' = [NoOut EXCEPT !.res = "refused"]
           /\ UNCHANGED <<core, nev>>
 
+(* A start that fails after the parent was found: the subscription to the adjudicator fails (the caller's context has *)
+(* ended).  Nothing is watched in addition, nothing else changes - in particular P can still be de-registered.         *)
+StartSubFails(s) ==
+  /\ Tick /\ Free /\ ~Backlog /\ watched[P] /\ ~watched[s]
+  /\ out' = [NoOut EXCEPT !.res = "refused"]
+  /\ UNCHANGED <<core, nev>>
+
 (* Publish the next transaction of c; for P it carries the (new) ordered   *)
 (* list of locked sub-channels, each of which is watched or archived.      *)
 PublishSub(s) ==
@@ -189,7 +196,7 @@ StopWatching(c) ==
           /\ UNCHANGED <<latest, locked, regVer, pubVer, held, waiting>>
 
 Next ==
-  \/ \E s \in Subs : StartSub(s)
+  \/ \E s \in Subs : StartSub(s) \/ StartSubFails(s)
   \/ \E s \in Subs : PublishSub(s)
   \/ \E l \in LockedSeqs : PublishParent(l)
   \/ \E c \in Chans, v \in 0..MaxVer, ok \in BOOLEAN : ChainRegistered(c, v, ok)
